@@ -2,10 +2,12 @@
 
   tables     every doprnt_funs_t has format / memory / reps (final is optional and tested for NULL by its users),
              every gmp_doscan_funs_t has scan / step / get / unget;
-  snprintf   in printf/snprntffuns.c every write through d->buf is dominated by a test that space is left
-             (d->size > 1, or >= 1 for the terminating NUL), its length is MIN (d->size - 1, x) (resp. the
-             remaining size for vsnprintf), and every `d->buf += n` is paired with `d->size -= n` of the same n -
-             the 'never writes more than size bytes' clause;
+  snprintf   in printf/snprntffuns.c every write through d->buf happens where d->size >= 1 is established and with a length that is at
+             most d->size - 1 (resp. the remaining size for vsnprintf), and every `d->buf += n` is paired with `d->size -= n` of the
+             same n - the 'never writes more than size bytes' clause.  Decided by a must-fact dataflow (v <= size - 1, v == size,
+             size >= k) with min-of-two recognition for conditional expressions, branch refinement on either edge of any comparison
+             of the size with a constant (`if (d->size <= 1) return` guards as well as `if (d->size > 1) {`), and summaries of
+             unit-local helpers that return such a bound;
   asprintf   the buffer of gmp_asprintf_t is reallocated with its tracked `alloc` (decided by R-ALLOC.size with the
              buf/alloc invariant) - the 'allocates exactly' clause is about the final shrink to size + 1.
   reset      __gmp_doprnt and __gmp_doscan keep the flags / width / precision / base / style of the conversion being
@@ -226,6 +228,279 @@ def run_reset(prop, res):
         raise AnalysisBroken("R-PRINTF.reset fixtures: %r" % got)
 
 
+
+# ---- snprintf: bounded writes as a small must-fact dataflow ---------------------------------------------
+class _SnState:
+    __slots__ = ("le1", "eq", "lo")
+
+    def __init__(self, le1=frozenset(), eq=frozenset(), lo=0):
+        self.le1, self.eq, self.lo = le1, eq, lo       # vars <= size-1, vars == size, size >= lo   (all must-facts)
+
+    def key(self):
+        return (self.le1, self.eq, self.lo)
+
+    def meet(self, o):
+        return _SnState(self.le1 & o.le1, self.eq & o.eq, min(self.lo, o.lo))
+
+
+def _same(a, b):
+    return skey(_strip(a)) == skey(_strip(b))
+
+
+class _Snprintf:
+    WRITERS = {"memcpy": 2, "memset": 2, "memmove": 2, "strncpy": 2, "__builtin_memcpy": 2, "__builtin_memset": 2, "__builtin_memmove": 2,
+               "vsnprintf": 1, "__gmp_replacement_vsnprintf": 1, "snprintf": 1}
+    UNBOUNDED = {"strcpy", "sprintf", "vsprintf", "strcat", "__builtin_strcpy"}
+
+    def __init__(self, fn, did, summaries, prop, F, stats):
+        self.fn, self.d, self.summaries, self.prop, self.F, self.stats = fn, did, summaries, prop, F, stats
+        self.blocks = sa.blocks_by_id(fn)
+        self.ret_le1 = True
+        self.nret = 0
+        self.seen = set()
+
+    def is_size(self, e):
+        return is_member(e, "size", self.d)
+
+    def classify(self, e, st):
+        e = _strip(e)
+        if not isinstance(e, dict):
+            return None
+        k = e.get("k")
+        if self.is_size(e):
+            return "eq"
+        if k == "var":
+            return "eq" if e["id"] in st.eq else ("le1" if e["id"] in st.le1 else None)
+        if k == "int":
+            return "le1" if e["v"] == 0 and st.lo >= 1 else None
+        if k == "binop" and e["op"] == "-" and _strip(e["r"]).get("k") == "int" and _strip(e["r"])["v"] >= 1:
+            c = self.classify(e["l"], st)
+            return "le1" if c in ("eq", "le1") else None
+        if k == "binop" and e["op"] in ("=", ","):
+            return self.classify(e["r"], st)
+        if k == "cond":
+            ca, cb = self.classify(e["a"], st), self.classify(e["b"], st)
+            if ca == "le1" and cb == "le1":
+                return "le1"
+            c = _strip(sa.strip_expect(e["c"]))
+            if isinstance(c, dict) and c.get("k") == "binop" and c["op"] in ("<", "<=", ">", ">="):
+                l, r = c["l"], c["r"]
+                small_first = c["op"] in ("<", "<=")        # l is the smaller one when the condition holds
+                # (l < r ? l : r)  /  (l > r ? r : l): the value is min (l, r), hence <= each arm
+                if (small_first and _same(e["a"], l) and _same(e["b"], r)) or (not small_first and _same(e["a"], r) and _same(e["b"], l)):
+                    if "le1" in (ca, cb):
+                        return "le1"
+            return None
+        if k == "call" and e.get("callee") in self.summaries:
+            kk = self.summaries[e["callee"]]
+            a = _strip(e["args"][kk]) if kk < len(e.get("args", [])) else None
+            if isinstance(a, dict) and a.get("k") == "var" and a["id"] == self.d:
+                return "le1"
+        return None
+
+    def report(self, line, sig, what):
+        if (line, sig) in self.seen:
+            return
+        self.seen.add((line, sig))
+        self.F.append(Finding(self.prop, "R-PRINTF", self.fn["file"], line, self.fn["name"], sig, what))
+
+    def assign(self, var, rhs, st):
+        c = self.classify(rhs, st) if rhs is not None else None
+        le1, eq = st.le1 - {var}, st.eq - {var}
+        if c == "le1":
+            le1 |= {var}
+        elif c == "eq":
+            eq |= {var}
+        return _SnState(le1, eq, st.lo)
+
+    def elem(self, el, st):
+        e, line = el["e"], el["line"]
+        if e.get("k") == "call":
+            cal = e.get("callee")
+            args = e.get("args", [])
+            if args and is_member(args[0], "buf", self.d) and (cal in self.WRITERS or cal in self.UNBOUNDED):
+                self.stats["buffer_writes"] += 1
+                if cal in self.UNBOUNDED:
+                    self.report(line, "unbounded-write:%s" % cal, "%s writes into d->buf without a length (line %d)" % (cal, line))
+                else:
+                    li = self.WRITERS[cal]
+                    c = self.classify(args[li], st) if li < len(args) else None
+                    ok = c == "le1" or ("snprintf" in cal and c in ("eq", "le1"))
+                    if not ok:
+                        self.report(line, "unbounded-write:%s" % cal,
+                                    "%s writes into d->buf with a length that is not known to be at most d->size - 1 (MIN (d->size - 1, ...) or an "
+                                    "equivalent) at line %d: gmp_snprintf may write past the caller's buffer" % (cal, line))
+                    if st.lo < 1:
+                        self.report(line, "unguarded-write:%s" % cal,
+                                    "%s into d->buf at line %d is not on a path that established d->size >= 1 (d->size - 1 wraps for size 0)" % (cal, line))
+                return st
+            # d handed to another function as non-const: it may move the cursor
+            for i, a in enumerate(args):
+                a = _strip(a)
+                if isinstance(a, dict) and a.get("k") == "var" and a["id"] == self.d and cal not in self.summaries:
+                    ps = e.get("params", [])
+                    if not (i < len(ps) and ps[i].get("pc")):
+                        return _SnState()
+            return st
+        out = [st]
+
+        def f(n):
+            st = out[0]
+            k = n.get("k")
+            if k == "call" and n is not e:
+                return False
+            if k == "binop" and n["op"] == "=":
+                l = _strip(n["l"])
+                if l.get("k") == "var":
+                    out[0] = self.assign(l["id"], n["r"], st)
+                elif self.is_size(l):
+                    out[0] = _SnState()
+                elif l.get("k") == "index" and is_member(l["base"], "buf", self.d):
+                    self.stats["buffer_writes"] += 1
+                    ix = _strip(l["idx"])
+                    ok = (ix.get("k") == "int" and ix["v"] == 0) or self.classify(ix, st) == "le1"
+                    if not ok or st.lo < 1:
+                        self.report(line, "unguarded-store", "store to d->buf[...] at line %d is not within d->size bytes on a path that "
+                                    "established d->size >= 1" % line)
+                return False
+            if k == "binop" and n["op"].endswith("=") and n["op"] not in ("==", "!=", "<=", ">="):
+                l = _strip(n["l"])
+                if l.get("k") == "var":
+                    out[0] = _SnState(st.le1 - {l["id"]}, st.eq - {l["id"]}, st.lo)
+                elif self.is_size(l):
+                    keep = n["op"] == "-=" and self.classify(n["r"], st) == "le1"
+                    out[0] = _SnState(lo=1 if keep else 0)        # size - n >= 1 when n <= size - 1
+                return False
+            if k == "unop" and n["op"] in ("post++", "post--", "pre++", "pre--"):
+                l = _strip(n["e"])
+                if l.get("k") == "var":
+                    out[0] = _SnState(st.le1 - {l["id"]}, st.eq - {l["id"]}, st.lo)
+                elif self.is_size(l):
+                    out[0] = _SnState()
+            if k == "decl":
+                for d_ in n["decls"]:
+                    out[0] = self.assign(d_["var"]["id"], d_.get("init"), out[0])
+                return False
+            if k == "return":
+                self.nret += 1
+                if not (n.get("e") and self.classify(n["e"], st) == "le1"):
+                    self.ret_le1 = False
+                return False
+        sa.walk(e, f)
+        return out[0]
+
+    def refine(self, cond, truth, st):
+        c = sa.strip_expect(cond)
+        neg = False
+        while isinstance(c, dict) and c.get("k") == "unop" and c["op"] == "!":
+            c = sa.strip_expect(c["e"])
+            neg = not neg
+        t = truth != neg
+        c = _strip(c)
+        if not isinstance(c, dict):
+            return st
+        if self.classify(c, st) == "eq":                         # if (d->size)
+            return _SnState(st.le1, st.eq, max(st.lo, 1)) if t else st
+        if c.get("k") != "binop" or c["op"] not in ("<", ">", "<=", ">=", "==", "!="):
+            return st
+        l, r, op = c["l"], c["r"], c["op"]
+        if self.classify(r, st) == "eq" and _strip(l).get("k") == "int":
+            l, r, op = r, l, {"<": ">", ">": "<", "<=": ">=", ">=": "<=", "==": "==", "!=": "!="}[op]
+        if self.classify(l, st) != "eq" or _strip(r).get("k") != "int":
+            return st
+        v = _strip(r)["v"]
+        lo = st.lo
+        if op == ">" and t:
+            lo = max(lo, v + 1)
+        elif op == ">=" and t:
+            lo = max(lo, v)
+        elif op == "<" and not t:
+            lo = max(lo, v)
+        elif op == "<=" and not t:
+            lo = max(lo, v + 1)
+        elif op == "!=" and t and v == 0:
+            lo = max(lo, 1)
+        elif op == "==" and not t and v == 0:
+            lo = max(lo, 1)
+        return _SnState(st.le1, st.eq, lo)
+
+    def run(self):
+        fn = self.fn
+        IN = {fn["entry"]: _SnState()}
+        work = {fn["entry"]}
+        n = 0
+        while work:
+            n += 1
+            if n > 5000:
+                raise AnalysisBroken("R-PRINTF.snprintf: no fixpoint in %s" % fn["name"])
+            bid = max(work)
+            work.discard(bid)
+            b = self.blocks[bid]
+            st = IN[bid]
+            for el in b["elems"]:
+                st = self.elem(el, st)
+            if b.get("noreturn"):
+                continue
+            t = b.get("term")
+            cond = sa.effective_cond(t) if t and t.get("cond") and len(b["succs"]) == 2 else None
+            for si, s_ in enumerate(b["succs"]):
+                if not isinstance(s_, int) or s_ == fn["exit"]:
+                    continue
+                o = self.refine(cond, si == 0, st) if cond is not None else st
+                cur = IN.get(s_)
+                new = o if cur is None else cur.meet(o)
+                if cur is None or new.key() != cur.key():
+                    IN[s_] = new
+                    work.add(s_)
+
+
+def snprintf_clause(prop, res):
+    F = res["findings"]
+    ex = sa.export(sa.cfg_built())
+    unit = [(p, f) for p, f in ex.functions(lambda p: p.endswith("printf/snprntffuns.c"))]
+    dfns = [f for p, f in unit if any("gmp_snprintf_t" in q.get("ct", "") for q in f["params"])]
+    backend = [f for f in dfns if f["params"] and "gmp_snprintf_t" in f["params"][0].get("ct", "") and "const" not in f["params"][0].get("ct", "")]
+    if len(backend) < 4:
+        raise AnalysisBroken("R-PRINTF: expected the 4 gmp_snprintf_* backend functions, found %d" % len(backend))
+    # helper summaries: unit-local functions that return a value <= P->size - 1 for their gmp_snprintf_t parameter P
+    summaries = {}
+    for f in dfns:
+        if not f.get("static"):
+            continue
+        for k, q in enumerate(f["params"]):
+            if "gmp_snprintf_t" in q.get("ct", ""):
+                a = _Snprintf(f, q["id"], {}, prop, [], collections.Counter())
+                a.run()
+                if a.nret and a.ret_le1:
+                    summaries[f["name"]] = k
+    for fn in dfns:
+        if fn["name"] in summaries:
+            continue
+        d = [q for q in fn["params"] if "gmp_snprintf_t" in q.get("ct", "")][0]["id"]
+        a = _Snprintf(fn, d, summaries, prop, F, res["stats"])
+        a.run()
+        # cursor pairing: d->buf and d->size advance by the same amount in the same block
+        for b in fn["blocks"]:
+            adv_buf, adv_size = [], []
+            for el in b["elems"]:
+                def g(n, el=el):
+                    if n.get("k") == "binop" and n["op"] == "+=" and is_member(n["l"], "buf", d):
+                        adv_buf.append((el["line"], skey(_strip(n["r"]))))
+                    if n.get("k") == "binop" and n["op"] == "-=" and is_member(n["l"], "size", d):
+                        adv_size.append((el["line"], skey(_strip(n["r"]))))
+                sa.walk(el["e"], g)
+            if adv_buf or adv_size:
+                res["stats"]["cursor_updates"] += 1
+                if sorted(k for _, k in adv_buf) != sorted(k for _, k in adv_size):
+                    ln = (adv_buf or adv_size)[0][0]
+                    F.append(Finding(prop, "R-PRINTF", fn["file"], ln, fn["name"], "cursor-unpaired",
+                                     "d->buf and d->size are not advanced by the same amount together (line %d): later writes are bounded "
+                                     "by a stale size" % ln))
+        res["samples"].append(dict(rule="R-PRINTF.snprintf", function=fn["name"], helpers=sorted(summaries)))
+    if res["stats"]["buffer_writes"] < 4:
+        raise AnalysisBroken("R-PRINTF: only %d writes through d->buf found in snprntffuns.c (floor 4)" % res["stats"]["buffer_writes"])
+
+
 def run(prop="C18", tier="quick"):
     res = dict(findings=[], stats=collections.Counter(), samples=[], notes=[])
     F = res["findings"]
@@ -251,114 +526,7 @@ def run(prop="C18", tier="quick"):
     if ntab < 7:
         raise AnalysisBroken("R-PRINTF: only %d printf/scanf function tables found (floor 7)" % ntab)
     # ---- snprintf backend --------------------------------------------------------------------------
-    ex = sa.export(sa.cfg_built())
-    fns = [f for p, f in ex.functions(lambda p: p.endswith("printf/snprntffuns.c"))
-           if f["params"] and "gmp_snprintf_t" in f["params"][0].get("ct", "")]
-    if len(fns) < 4:
-        raise AnalysisBroken("R-PRINTF: expected the 4 gmp_snprintf_* backend functions, found %d" % len(fns))
-    for fn in fns:
-        d = fn["params"][0]["id"]
-        blocks = sa.blocks_by_id(fn)
-        dom, preds = r_divzero.dominators(fn)
-        # variables that hold d->size (avail = d->size) and MIN (d->size - 1, x)
-        holds_size, min_vars = set(), set()
-
-        def is_size_minus_1(e):
-            e2 = e
-            while isinstance(e2, dict) and e2.get("k") == "cast":
-                e2 = e2["e"]
-            return isinstance(e2, dict) and e2.get("k") == "binop" and e2["op"] == "-" and is_member(e2["l"], "size", d) \
-                and e2["r"].get("k") == "int" and e2["r"]["v"] == 1
-
-        def is_min_bound(e):
-            """MIN (d->size - 1, x) in either order:  (a) < (b) ? (a) : (b)"""
-            e2 = e
-            while isinstance(e2, dict) and e2.get("k") == "cast":
-                e2 = e2["e"]
-            if isinstance(e2, dict) and e2.get("k") == "cond":
-                a, b = e2["a"], e2["b"]
-                return (is_size_minus_1(a) or is_size_minus_1(b)) and skey(sa.strip_expect(e2["c"])) is not None and \
-                    sa.strip_expect(e2["c"]).get("op") in ("<", "<=", ">", ">=")
-            return False
-        for b in fn["blocks"]:
-            for el in b["elems"]:
-                def f(n):
-                    if n.get("k") == "binop" and n["op"] == "=" and n["l"].get("k") == "var":
-                        if is_member(n["r"], "size", d):
-                            holds_size.add(n["l"]["id"])
-                        if is_min_bound(n["r"]):
-                            min_vars.add(n["l"]["id"])
-                sa.walk(el["e"], f)
-
-        def guard_ok(bid, need_gt):
-            """a dominating branch `d->size > need_gt - 1`-ish: size > 1 (need_gt=1) or size >= 1 (need_gt=0)"""
-            for dd in dom[bid]:
-                if dd == bid:
-                    continue
-                db = blocks[dd]
-                t = db.get("term")
-                if not t or not t.get("cond") or len(db["succs"]) != 2:
-                    continue
-                s0 = db["succs"][0]
-                if not (isinstance(s0, int) and s0 in dom[bid] and len(preds[s0]) == 1):
-                    continue
-                c = sa.strip_expect(sa.effective_cond(t))
-                if isinstance(c, dict) and c.get("k") == "binop" and c["op"] in (">", ">="):
-                    l = c["l"]
-                    while isinstance(l, dict) and l.get("k") == "cast":
-                        l = l["e"]
-                    szl = is_member(l, "size", d) or (isinstance(l, dict) and l.get("k") == "var" and l["id"] in holds_size)
-                    if szl and c["r"].get("k") == "int":
-                        lo = c["r"]["v"] + (1 if c["op"] == ">" else 0)      # size >= lo
-                        if lo >= need_gt + 1:
-                            return True
-            return False
-        for b in fn["blocks"]:
-            adv_buf, adv_size = [], []
-            for el in b["elems"]:
-                e = el["e"]
-                if e.get("k") == "call" and e.get("callee") in ("memcpy", "memset", "vsnprintf", "__builtin_memcpy", "__builtin_memset",
-                                                                "strcpy", "strncpy", "memmove", "__gmp_replacement_vsnprintf") \
-                        and e["args"] and is_member(e["args"][0], "buf", d):
-                    res["stats"]["buffer_writes"] += 1
-                    li = 1 if "vsnprintf" in e["callee"] else 2
-                    ln = e["args"][li] if li < len(e["args"]) else None
-                    while isinstance(ln, dict) and ln.get("k") == "cast":
-                        ln = ln["e"]
-                    bounded = isinstance(ln, dict) and ln.get("k") == "var" and \
-                        (ln["id"] in min_vars or ("vsnprintf" in e["callee"] and ln["id"] in holds_size))
-                    if e["callee"] in ("strcpy",):
-                        bounded = False
-                    if not bounded:
-                        F.append(Finding(prop, "R-PRINTF", fn["file"], el["line"], fn["name"], "unbounded-write:%s" % e["callee"],
-                                         "%s writes into d->buf with a length that is not MIN (d->size - 1, ...) (line %d): gmp_snprintf may "
-                                         "write past the caller's buffer" % (e["callee"], el["line"])))
-                    if not guard_ok(b["id"], 1):
-                        F.append(Finding(prop, "R-PRINTF", fn["file"], el["line"], fn["name"], "unguarded-write:%s" % e["callee"],
-                                         "%s into d->buf at line %d is not dominated by a test that d->size > 1" % (e["callee"], el["line"])))
-
-                def g(n, el=el, b=b):
-                    if n.get("k") == "binop" and n["op"] == "=" and n["l"].get("k") == "index" and is_member(n["l"]["base"], "buf", d):
-                        res["stats"]["buffer_writes"] += 1
-                        ix = n["l"]["idx"]
-                        if not (ix.get("k") == "int" and ix["v"] == 0) or not guard_ok(b["id"], 0):
-                            F.append(Finding(prop, "R-PRINTF", fn["file"], el["line"], fn["name"], "unguarded-store",
-                                             "store to d->buf[...] at line %d is not d->buf[0] under a test d->size >= 1" % el["line"]))
-                    if n.get("k") == "binop" and n["op"] in ("+=", "-=") and is_member(n["l"], "buf", d) and n["op"] == "+=":
-                        adv_buf.append((el["line"], skey(n["r"])))
-                    if n.get("k") == "binop" and n["op"] == "-=" and is_member(n["l"], "size", d):
-                        adv_size.append((el["line"], skey(n["r"])))
-                sa.walk(e, g)
-            if adv_buf or adv_size:
-                res["stats"]["cursor_updates"] += 1
-                if sorted(k for _, k in adv_buf) != sorted(k for _, k in adv_size):
-                    ln = (adv_buf or adv_size)[0][0]
-                    F.append(Finding(prop, "R-PRINTF", fn["file"], ln, fn["name"], "cursor-unpaired",
-                                     "d->buf and d->size are not advanced by the same amount together (line %d): later writes are bounded "
-                                     "by a stale size" % ln))
-        res["samples"].append(dict(rule="R-PRINTF.snprintf", function=fn["name"], size_holders=len(holds_size), min_bounded_vars=len(min_vars)))
-    if res["stats"]["buffer_writes"] < 4:
-        raise AnalysisBroken("R-PRINTF: only %d writes through d->buf found in snprntffuns.c (floor 4)" % res["stats"]["buffer_writes"])
+    snprintf_clause(prop, res)
     run_reset(prop, res)
     # ---- asprintf sizes (R-ALLOC.size restricted to printf/) ----------------------------------------
     ra = r_alloc.run(prop=prop, tier=tier)
